@@ -111,6 +111,14 @@ Theorem W_binc_depth : forall (n : nat) (d : dopts) (dep : N) (rf lf : nat) (dst
 Proof. exact nest_deep. Qed.
 Print Assumptions W_binc_depth.
 
+(* ... and for EVERY encodable item, in every symbol state: if it is nested to MaxDepth
+   or beyond, decoding its encoding is Err EDepth (not EOF, not a crash, not success) *)
+Theorem W_binc_depth_all : forall (e : eopts) (d : dopts) (i : item) (est : estate) (dst : dstate) (rest : list N),
+  wfb e d i -> R est dst -> 1 <= maxdepth d -> maxdepth d <= N.of_nat (depth i) ->
+  dec_naked d dst (fst (enc e false i est) ++ rest) = Err EDepth.
+Proof. exact dec_naked_deep. Qed.
+Print Assumptions W_binc_depth_all.
+
 (* ---------- non-vacuity and regression examples ---------- *)
 Definition eo1 := {| asSymbols := true; stringToRaw := false |}.
 Definition do1 := {| maxdepth := 1024; signedInt := false; rawToString := false |}.
